@@ -43,6 +43,10 @@ TRUSTED = [
     "falls strictly between the exact and the rounded threshold are skipped (counted as rounding_borderline)",
     "RandomState(seed).randint reproduces the selector's bootstrap draws (same seed, same call sequence)",
     "harness loop that drives step/cont (cross-checked on every case against the extracted complete greedy run on the recorded loss table)",
+    "reuse / online: the only state a GreedySelector keeps between select() calls is its RandomState; the harness carries the same "
+    "RandomState position from call to call (the model takes the draws as an input; C20_greedy_stateless: irrelevant without bagging)",
+    "EnsemblePredictor: completion order is read from time.monotonic() stamps inside the members' predictions (also across the "
+    "processes of the process backend); predict() is observed through a recording Aggregator",
     "EnsemblePredictor: the ensemble's evaluator numbers its jobs 0, 1, 2, ... in submission order and keeps counting across calls "
     "(call c of n members = job numbers c*n .. c*n+n-1, handed to the model as integers); completion order is recorded inside predict()",
 ]
@@ -52,13 +56,21 @@ ASSUMPTIONS = [
     "losses >= 0; early_stopping=False + with_replacement=True + max_it < 0 is excluded (C20_noES_replacement_nontermination_refuted), "
     "and so is eps_tol = 0 with a loss that is not integer valued (C20_eps0_nontermination_refuted): the generators keep eps_tol = 0 for the integer table losses",
     "no-worse is claimed with early stopping only (C20_noES_refuted)",
+    "not part of the property, seen while sweeping: EnsemblePredictor(evaluator='serial') cannot be constructed (SerialEvaluator wants a "
+    "coroutine) although the docstring names it; a used aggregator keeps the numpy module in self._np, so a used selector cannot be "
+    "pickled / deep-copied (shallow copies are exercised)",
 ]
 RULE = ("topk/greedy: 1..12 candidates, all option combinations, losses SquaredError/AbsoluteError + MeanAggregator, "
         "CategoricalCrossEntropy/ZeroOneLoss + MixedCategoricalAggregator, plain and masked predictions, and a synthetic table loss "
         "(arbitrary small integers per weight vector, many ties); greedy with masks also has members that predict every sample (all-False mask, "
         "or a plain ndarray next to masked members); online: OnlineSelector.on_done job by job, a random mixture of jobs covering all / a part of the samples; predictor_order: every "
         "latency order of <= 4 (quick) / 5 (thorough) members on the thread backend, sequences of up to 40 calls on one ensemble (job numbers "
-        "beyond 10 and 100) and ensembles of 11-13 members with sampled latency orders. non-trivial = at least one greedy step accepted, "
+        "beyond 10 and 100) and ensembles of 11-13 members with sampled latency orders. Edges: integer-typed arrays, tuple / ndarray containers, NaN / inf / 1e300 under masks, table losses 1 ulp apart, "
+        "1e300 and 1e-300 sized, k = 0. reuse: one Greedy + one TopK selector object, 2-4 select() calls, RandomState carried over. "
+        "online: one callback / selector object, job outputs overwritten and result lists emptied by the caller after each call, integer "
+        "targets, on_done_other. predictor_order also: predict() through a recording aggregator with non-uniform weights, members as "
+        "loaders, the caller re-ordering ensemble.predictors between calls, default and process evaluators. "
+        "non-trivial = at least one greedy step accepted, "
         "or a tie among the candidate losses, or a completion order different from the submission order")
 
 F_OKORDER, F_TOPK, F_OKTOPK, F_INIT, F_CONT, F_STEP, F_FINAL, F_OKGREEDY, F_NOWORSE, F_RUN, F_BYID, F_OKMEMBERS, F_ARGSORT = range(2001, 2014)
@@ -85,32 +97,47 @@ def _raise_timeout(signum, frame):
     raise ImplTimeout()
 
 
+def _disarm(which):
+    while True:  # the repeating timer may fire while we are cancelling it
+        try:
+            signal.setitimer(which, 0)
+            return
+        except ImplTimeout:
+            continue
+
+
 def with_watchdog(fn, seconds=WATCHDOG, wall=False):
     """Runs fn() under an interval timer; returns ('ok', value) | ('timeout', None) | ('exc', exception).
     The timer counts the CPU time of this process (ITIMER_PROF): a loop that never ends burns CPU, while a loaded
     machine cannot turn a 20 ms call into a time-out.  wall=True (calls that sleep) uses the wall clock instead.
-    A call that blocks without using CPU is left to the runner's per-case alarm."""
+    A call that blocks without using CPU is left to the runner's per-case alarm.
+    The timer is always disarmed before the previous handler comes back, and SIGPROF is never left with its default
+    action (which would kill the worker and leave the pool waiting for it)."""
     main = threading.current_thread() is threading.main_thread()
     which, sig = (signal.ITIMER_REAL, signal.SIGALRM) if wall else (signal.ITIMER_PROF, signal.SIGPROF)
+    status, value = "ok", None
+    old, left = None, 0
     if main:
         old = signal.signal(sig, _raise_timeout)
         left = signal.alarm(0) if wall else 0
         signal.setitimer(which, seconds, 0.25)  # repeats until cancelled
     try:
         try:
-            return "ok", fn()
+            value = fn()
         finally:
             if main:
-                signal.setitimer(which, 0)
+                _disarm(which)
     except ImplTimeout:
-        return "timeout", None
+        status, value = "timeout", None
     except Exception as e:  # reported by the caller with its class
-        return "exc", e
+        status, value = "exc", e
     finally:
         if main:
-            signal.signal(sig, old if old is not None else signal.SIG_DFL)
+            _disarm(which)
+            signal.signal(sig, old if (callable(old) or (wall and old is not None)) else signal.SIG_IGN)
             if left:
                 signal.alarm(left)
+    return status, value
 
 
 # ------------------------------------------------------------------ exact numbers
@@ -148,6 +175,12 @@ class TableLoss:
             return np.array([w[j] if j < len(w) else 0.0])
         key = tuple(Fraction(float(v)).limit_denominator(97) for v in w)
         h = int(hashlib.sha1((repr(key) + self.salt).encode()).hexdigest(), 16)
+        if self.mode.startswith("ulp"):    # losses that differ by single units in the last place of 1.0
+            return np.array([1.0 + (h % int(self.mode[3:])) * 2.0 ** -52])
+        if self.mode.startswith("huge"):   # huge / tiny magnitudes (exact in binary64, no overflow in a mean of one value)
+            return np.array([float(h % int(self.mode[4:])) * 1e300])
+        if self.mode.startswith("tiny"):
+            return np.array([float(h % int(self.mode[4:])) * 1e-300])
         if self.mode.startswith("nhash"):  # always negative (like a log-likelihood of a sharp predictive distribution)
             return np.array([float(-1 - h % int(self.mode[5:]))])
         if self.mode.startswith("shash"):  # signed values: a generic loss callable may be negative (e.g. a log-likelihood)
@@ -170,8 +203,9 @@ def build(case):
         return y, preds, TableLoss(case["table"], case.get("salt", "")), MeanAggregator()
     masks = case.get("masks")
     if kind in ("se", "ae"):
-        y = np.array(case["y"], dtype=float)
-        preds = [np.array(p, dtype=float) for p in case["preds"]]
+        dt = int if case.get("int_dtype") else float  # integer-typed targets / predictions (as in tests/ensemble)
+        y = np.array(case["y"], dtype=dt)
+        preds = [np.array(p, dtype=dt) for p in case["preds"]]
         loss = SquaredError() if kind == "se" else AbsoluteError()
         agg = MeanAggregator()
     else:
@@ -186,6 +220,10 @@ def build(case):
             mk = np.array(mk, dtype=bool)
             if p.ndim == 2:
                 mk = np.repeat(mk[:, None], p.shape[1], axis=1)
+            junk = case.get("junk")
+            if junk is not None and mk.any() and p.dtype.kind == "f":  # what lies under a mask must not matter (NaN, inf, 1e300)
+                p = p.copy()
+                p[mk] = {"nan": np.nan, "inf": np.inf, "big": 1e300}[junk]
             # a member that predicts every sample may come as a plain ndarray (plain[i]) or with an all-False mask
             out.append(p if (pl and not mk.any()) else np.ma.masked_array(p, mask=mk))
         preds = out
@@ -199,6 +237,40 @@ def reference_preds(preds):
     if not any(isinstance(p, np.ma.MaskedArray) for p in preds):
         return preds
     return [p if isinstance(p, np.ma.MaskedArray) else np.ma.masked_array(p, mask=np.zeros(p.shape, dtype=bool)) for p in preds]
+
+
+def as_container(case, preds):
+    """The candidates as the caller hands them over: a list (default), a tuple, or one 2-d/3-d ndarray."""
+    c = case.get("container")
+    if c == "tuple":
+        return tuple(preds)
+    if c == "array" and not any(isinstance(p, np.ma.MaskedArray) for p in preds):
+        return np.array(preds)
+    return list(preds)
+
+
+def snapshot(y, preds):
+    return (np.array(y, copy=True), [(type(p), np.array(np.ma.getdata(p), copy=True), np.array(np.ma.getmaskarray(p), copy=True)) for p in preds])
+
+
+def unchanged(snap, y, preds):
+    """select() / on_done() must not edit what the caller handed over (targets, the candidate container, the arrays)."""
+    y0, ps = snap
+    if not np.array_equal(y0, y) or len(ps) != len(preds):
+        return False
+    for (t, d, mk), p in zip(ps, preds):
+        if type(p) is not t or not np.array_equal(d, np.ma.getdata(p), equal_nan=True) or not np.array_equal(mk, np.ma.getmaskarray(p)):
+            return False
+    return True
+
+
+def rs_at(state, seed):
+    """A RandomState positioned where the selector's own one is: freshly seeded, or after the draws of the earlier
+    select() calls on the same selector object (the only state a GreedySelector keeps between calls)."""
+    r = np.random.RandomState(seed)
+    if state is not None:
+        r.set_state(state)
+    return r
 
 
 def mixed_plain(preds):
@@ -251,7 +323,7 @@ class Oracle:
         return frac(self._agg([self.preds[i] for i in idx], np.array(w)))
 
 
-def drive_model(m, fixed, o, n, order, orc, seed):
+def drive_model(m, fixed, o, n, order, orc, rs):
     """Runs Model.loop by calling the extracted cont/step; the real code supplies the candidate losses of each round.
     -> dict(status='done'|'allnan'|'fuel', sel, loss, rounds, table, bags, L0, borderline)"""
     eps = frac(o["eps_tol"])
@@ -259,7 +331,6 @@ def drive_model(m, fixed, o, n, order, orc, seed):
     init = list(sel)
     L0 = orc.start(sel)
     lmin, it, table, bags, borderline = L0, 0, {}, [], False
-    rs = np.random.RandomState(seed)
     status = None
     while status is None:
         if it >= CAP:
@@ -286,7 +357,7 @@ def drive_model(m, fixed, o, n, order, orc, seed):
             status = "done"
         else:
             sel, lmin, it = sel + [i], cand[i], it + 1
-    return dict(status=status, sel=sel, loss=lmin, rounds=it, table=table, bags=bags, L0=L0, borderline=borderline, init=init)
+    return dict(status=status, sel=sel, loss=lmin, rounds=it, table=table, bags=bags, L0=L0, borderline=borderline, init=init, rs_end=rs.get_state())
 
 
 def full_run(m, fixed, o, n, order, run):
@@ -316,7 +387,16 @@ def check_topk(case):
     n, k = len(preds), case["k"]
     S = TopKSelector(loss, k=k)
     res = dict(ok=True, kind="oracle", clause="", sig={}, nontrivial=False, desc=["n=%d" % n, "kind=%s" % case["kind"], "k_vs_n=%s" % ("gt" if k > n else "le")])
-    st, out = with_watchdog(lambda: S.select(y, preds))
+    given = as_container(case, preds)
+    snap = snapshot(y, preds)
+    st, out = with_watchdog(lambda: S.select(y, given))
+    if not unchanged(snap, y, list(given)):
+        return dict(res, ok=False, clause="input_mutated", detail="select() edited the targets / candidates it was given")
+    return judge_topk(model(), S, y, preds, k, res, st, out)
+
+
+def judge_topk(m, S, y, preds, k, res, st, out):
+    n = len(preds)
     if st == "timeout":
         return dict(res, ok=False, clause="topk_total", sig={"error": "nontermination"}, detail="no answer within %.0fs" % WATCHDOG)
     if st == "exc":
@@ -327,8 +407,7 @@ def check_topk(case):
     ints, _ = to_scale(losses)
     res["nontrivial"] = len(set(ints)) < n or k < n
     if len(set(ints)) < n:
-        res["desc"].append("ties")
-    m = model()
+        res["desc"] = res["desc"] + ["ties"]
     if any(i < 0 for i in idx) or not m.call(F_OKTOPK, [ints, k, idx]):
         return dict(res, ok=False, clause="topk_lowest", detail=dict(idx=idx, losses=[float(x) for x in losses]))
     if len(w) != len(idx) or any(not (float(x) > 0) for x in w) or len(set(float(x) for x in w)) > 1:
@@ -346,8 +425,15 @@ def check_topk(case):
 
 
 # ------------------------------------------------------------------ Greedy
-def compare_greedy(m, S, y, preds, o, res, impl_status, impl_out):
-    """Shared by the greedy and online streams.  impl_status/impl_out as returned by with_watchdog(select)."""
+def compare_greedy(m, S, y, preds, o, res, impl_status, impl_out, rs_state=None):
+    """Shared by the greedy, reuse and online streams.  impl_status/impl_out as returned by with_watchdog(select);
+    rs_state: where the selector's RandomState stood before this call (None: freshly seeded).  The result carries
+    '_rs_end' (where it stands afterwards according to the model) - callers pop it."""
+    r_ = _compare_greedy(m, S, y, preds, o, res, impl_status, impl_out, rs_state)
+    return r_
+
+
+def _compare_greedy(m, S, y, preds, o, res, impl_status, impl_out, rs_state):
     n = len(preds)
     orc = Oracle(S, y, preds)
     try:
@@ -357,12 +443,14 @@ def compare_greedy(m, S, y, preds, o, res, impl_status, impl_out):
         for order in candidate_orders([float(x) for x in losses]):
             if not m.call(F_OKORDER, [ints, order]):
                 return dict(res, ok=False, kind="corr", clause="argsort_not_sorting", detail=dict(order=order))
-            run = drive_model(m, True, o, n, order, orc, o.get("seed", 0))
+            run = drive_model(m, True, o, n, order, orc, rs_at(rs_state, o.get("seed", 0)))
             run["order"] = order
             runs.append(run)
     except NonFinite as e:
-        return dict(res, nontrivial=False, desc=res["desc"] + ["skipped:nonfinite_loss"], detail=str(e))
+        # fail closed: the generators only produce finite data, so a non-finite aggregated loss is the code's doing
+        return dict(res, ok=False, clause="loss_not_finite", detail="reference aggregated loss is %s" % e)
     run = runs[0]
+    res["_rs_end"] = run["rs_end"]
     res["desc"] = res["desc"] + ["model=%s" % run["status"], "rounds=%s" % (run["rounds"] if run["rounds"] < 6 else "6+")]
     res["nontrivial"] = run["rounds"] > 0 or len(set(ints)) < n
     sig = dict(early_stopping=bool(o["es"]), with_replacement=bool(o["repl"]), bagging=bool(o["bag"]), max_it_neg=o["max_it"] < 0)
@@ -383,7 +471,7 @@ def compare_greedy(m, S, y, preds, o, res, impl_status, impl_out):
                     detail="select() gave no answer within %.0fs; the repaired model: %s after %d rounds" % (WATCHDOG, run["status"], run["rounds"]))
     if impl_status == "exc":
         if isinstance(impl_out, ValueError) and "All-NaN" in str(impl_out):
-            today = drive_model(m, False, o, n, run["order"], orc, o.get("seed", 0))
+            today = drive_model(m, False, o, n, run["order"], orc, rs_at(rs_state, o.get("seed", 0)))
             return dict(res, ok=False, clause="greedy_total", sig=dict(sig, error="AllNaN"),
                         detail="select() raised %r; model of today's code: %s, repaired model: %s -> %s" % (impl_out, today["status"], run["status"], run["sel"]))
         raise impl_out
@@ -427,6 +515,7 @@ def compare_greedy(m, S, y, preds, o, res, impl_status, impl_out):
             fin = m.call(F_FINAL, [n, r["sel"]])
             if [f[0] for f in fin] == idx and [float(Fraction(f[1], f[2])) for f in fin] == w:
                 matched, run = True, r
+                res["_rs_end"] = r["rs_end"]
                 break
         if not matched and any(r["status"] == "fuel" for r in runs):
             # the run on one of the admissible argsort results exceeded CAP rounds: nothing to compare the answer with
@@ -453,20 +542,32 @@ def check_greedy(case):
     res = dict(ok=True, kind="oracle", clause="", sig={}, nontrivial=False,
                desc=["n=%d" % n, "kind=%s%s" % (case["kind"], "+masked" if case.get("masks") else "")] + opts_desc(o, n))
     S = GreedySelector(loss, agg, **opts_kwargs(o))
-    st, out = with_watchdog(lambda: S.select(y, preds))
+    given = as_container(case, preds)
+    snap = snapshot(y, preds)
+    st, out = with_watchdog(lambda: S.select(y, given))
+    if not unchanged(snap, y, list(given)):
+        return dict(res, ok=False, clause="input_mutated", detail="select() edited the targets / candidates it was given")
     S2 = GreedySelector(loss, agg, **opts_kwargs(o))  # a fresh object for the oracle calls (same code, untouched RNG)
-    return compare_greedy(model(), S2, y, preds, o, res, st, out)
+    r = compare_greedy(model(), S2, y, preds, o, res, st, out)
+    r.pop("_rs_end", None)
+    return r
 
 
 # ------------------------------------------------------------------ OnlineSelector
 def check_online(case):
+    """OnlineSelector.on_done job by job on ONE callback object holding ONE selector object (its RandomState goes on
+    from call to call).  After every call the harness overwrites the arrays of the job output it handed over and empties
+    the result lists it read - the callback must have kept its own copies - and every prefix is judged with the
+    reference loss on the harness's own copy of the job outputs."""
     from deephyper.ensemble.selector import GreedySelector, OnlineSelector, TopKSelector
     from deephyper.ensemble.aggregator import MeanAggregator
     from deephyper.ensemble.loss import SquaredError
 
-    y = np.array(case["y"], dtype=float)
+    y = np.array(case["y"], dtype=int if case.get("int_y") else float)
+    y0 = y.copy()
     o = case["opts"]
-    res = dict(ok=True, kind="oracle", clause="", sig={}, nontrivial=False, desc=["jobs=%d" % len(case["jobs"]), "selector=%s" % case["selector"]])
+    res = dict(ok=True, kind="oracle", clause="", sig={}, nontrivial=False,
+               desc=["jobs=%d" % len(case["jobs"]), "selector=%s" % case["selector"]] + (["int_targets"] if case.get("int_y") else []))
     m = model()
     if case["selector"] == "greedy":
         mk = lambda: GreedySelector(SquaredError(), MeanAggregator(), **opts_kwargs(o))
@@ -476,114 +577,209 @@ def check_online(case):
     nt, first_total = False, None
     ref = []  # the finished jobs' predictions as the harness knows them (never read back from the selector)
     cov = set()
+    rs_state = None
     for j, job in enumerate(case["jobs"]):
         if job["fail"]:
             out = {"objective": "F_fail", "online_selector": {"y_pred": [], "y_pred_idx": []}}
         else:
-            out = {"objective": 0.0, "online_selector": {"y_pred": np.array(job["pred"], dtype=float), "y_pred_idx": np.array(job["idx"], dtype=int)}}
-        before = len(online.y_predictors)
-        if case["selector"] == "greedy":
-            online.selector = mk()  # same seed for every call, so that the harness can reproduce the draws
-        st, e = with_watchdog(lambda: online.on_done(types.SimpleNamespace(id="0.%d" % j, output=out)))
-        n = len(online.y_predictors)
-        if not job["fail"]:
-            full = np.zeros_like(y, dtype=float)
+            out = {"objective": job.get("obj", 0.0), "online_selector": {"y_pred": np.array(job["pred"], dtype=float), "y_pred_idx": np.array(job["idx"], dtype=int)}}
+            full = np.zeros(y.shape, dtype=float)
             mask = np.ones(y.shape, dtype=bool)
             full[out["online_selector"]["y_pred_idx"]] = out["online_selector"]["y_pred"]
             mask[out["online_selector"]["y_pred_idx"]] = False
             ref.append(np.ma.masked_array(full, mask=mask))
             cov.add("complete" if not mask.any() else "partial")
+        before = len(online.y_predictors)
+        jobobj = types.SimpleNamespace(id="0.%d" % j, output=out)
+        st, e = with_watchdog(lambda: (online.on_done_other if job.get("other") else online.on_done)(jobobj))
+        n = len(online.y_predictors)
         preds = list(ref)
         r = dict(res, desc=res["desc"] + ["n=%d" % n])
+        if not np.array_equal(y0, y):
+            return dict(r, ok=False, clause="input_mutated", detail="on_done() edited the targets")
         if job["fail"]:
             if st != "ok" or n != before:
                 return dict(r, ok=False, clause="online_failed_job", detail=repr(e))
             continue
         if n != before + 1 or n != len(ref) or online.y_predictors_job_ids[-1] != "0.%d" % j:
             return dict(r, ok=False, clause="online_bookkeeping", detail=dict(n=n, before=before))
-        impl_out = e if st != "ok" else (online.selected_predictors_indexes, online.selected_predictors_weights)
-        if case["selector"] == "greedy":
-            r = compare_greedy(m, mk(), y, preds, o, r, st, impl_out)
+        if st == "ok":
+            impl_out = (list(online.selected_predictors_indexes), list(online.selected_predictors_weights))
+            job_ids = list(online.selected_predictors_job_ids)
+            if job_ids != ["0.%d" % [k for k, jb in enumerate(case["jobs"]) if not jb["fail"]][i] for i in impl_out[0] if 0 <= i < n]:
+                return dict(r, ok=False, clause="online_job_ids", detail=dict(job_ids=job_ids, idx=impl_out[0]))
+            # the caller goes on using (and editing) what it handed over and what it read
+            out["online_selector"]["y_pred"][...] = 99.0
+            out["online_selector"]["y_pred_idx"][...] = 0
+            try:
+                online.selected_predictors_indexes.clear()
+                online.selected_predictors_weights.clear()
+            except AttributeError:
+                pass
         else:
-            r = _online_topk(m, mk(), y, preds, o["k"], r, st, impl_out)
+            impl_out = e
+        if case["selector"] == "greedy":
+            r = compare_greedy(m, mk(), y, preds, o, r, st, impl_out, rs_state)
+            rs_state = r.pop("_rs_end", rs_state)
+        else:
+            r = judge_topk(m, mk(), y, preds, o["k"], r, st, impl_out)
         nt = nt or r.get("nontrivial")
         if not r["ok"]:
             r["detail"] = dict(after_job=j, inner=r.get("detail"))
-            if r["clause"] != "greedy_total":
-                return r
+            if r["clause"] != "greedy_total" or o["bag"]:
+                return r  # (with bagging the selector's RandomState is in an unknown position after a failed call)
             # selection failed on this prefix (raise / hang): remember the first such failure, keep feeding jobs - the
             # callback's lists are already updated, so later prefixes are still checked
             first_total = first_total or r
             if r["sig"].get("error") == "nontermination":
                 return first_total
         res["desc"] = [d for d in r["desc"] if not d.startswith("n=")]
+        if o["bag"] and case["selector"] == "greedy" and any(d.startswith(("inconclusive", "skipped")) for d in r["desc"]):
+            return dict(res, nontrivial=False, desc=res["desc"] + ["stopped:rng_position_unknown"])  # see check_reuse
     if first_total is not None:
         return first_total
     return dict(res, nontrivial=bool(nt), desc=list(dict.fromkeys(res["desc"] + ["coverage=%s" % ("mixed" if len(cov) > 1 else "".join(cov) or "none")])))
 
 
-def _online_topk(m, S, y, preds, k, res, st, out):
-    if st != "ok":
-        return dict(res, ok=False, clause="topk_total", sig={"error": "nontermination" if st == "timeout" else type(out).__name__}, detail=repr(out))
-    idx = [int(i) for i in out[0]]
-    ints, _ = to_scale([frac(S._evaluate(y, p)) for p in preds])
-    if any(i < 0 for i in idx) or not m.call(F_OKTOPK, [ints, k, idx]):
-        return dict(res, ok=False, clause="topk_lowest", detail=dict(idx=idx))
-    return dict(res, nontrivial=len(preds) > k)
+# ------------------------------------------------------------------ one selector object, several select() calls
+def check_reuse(case):
+    """ONE GreedySelector and ONE TopKSelector object, select() called on 2-4 different candidate sets in a row
+    (optionally shallow-copied in between).  The only state a selector may carry from call to call is the
+    position of its RandomState (bagging draws): the model is driven with that position (C20_greedy_stateless: without
+    bagging the answer is a function of the call's inputs alone).  The returned lists are emptied by the caller after
+    each call; targets and candidates must come back unedited."""
+    import copy
+    from deephyper.ensemble.selector import GreedySelector, TopKSelector
+
+    o = case["opts"]
+    m = model()
+    S = T = None
+    rs_state = None
+    res0 = dict(ok=True, kind="oracle", clause="", sig={}, nontrivial=False,
+                desc=["calls=%d" % len(case["steps"]), "kind=%s" % case["kind"]] + (["copied_between_calls"] if case.get("pickle") else []))
+    nt = False
+    for t, data in enumerate(case["steps"]):
+        sub = dict(data, kind=case["kind"])
+        y, preds, loss, agg = build(sub)
+        n = len(preds)
+        if S is None:
+            S, T = GreedySelector(loss, agg, **opts_kwargs(o)), TopKSelector(loss, k=case["k"])
+        elif case.get("pickle"):
+            # (a used aggregator keeps the numpy module in self._np, so pickle / deepcopy of a used selector raise
+            #  TypeError - outside this property; a shallow copy shares the RandomState object, as it must)
+            S, T = copy.copy(S), copy.copy(T)
+        res = dict(res0, desc=res0["desc"] + opts_desc(o, n)[:1])
+        given = as_container(sub, preds)
+        snap = snapshot(y, preds)
+        st, out = with_watchdog(lambda: S.select(y, given))
+        if not unchanged(snap, y, list(given)):
+            return dict(res, ok=False, clause="input_mutated", detail="call %d: select() edited the targets / candidates" % t)
+        kept = (list(out[0]), list(out[1])) if st == "ok" else out
+        if st == "ok":
+            for l in out:
+                if isinstance(l, list):
+                    l.clear()
+        S2 = GreedySelector(S.loss_func, S.aggregator, **opts_kwargs(o))
+        r = compare_greedy(m, S2, y, preds, o, res, st, kept, rs_state)
+        rs_state = r.pop("_rs_end", rs_state)
+        if r["ok"]:
+            st, out = with_watchdog(lambda: T.select(y, given))
+            if not unchanged(snap, y, list(given)):
+                return dict(res, ok=False, clause="input_mutated", detail="call %d: TopK select() edited the targets / candidates" % t)
+            kept = (list(out[0]), list(out[1])) if st == "ok" else out
+            r2 = judge_topk(m, T, y, preds, case["k"], res, st, kept)
+            if not r2["ok"]:
+                r = r2
+        nt = nt or r.get("nontrivial")
+        if not r["ok"]:
+            r["detail"] = dict(call=t, inner=r.get("detail"))
+            return r
+        if o["bag"] and any(d.startswith(("inconclusive", "skipped")) for d in r["desc"]):
+            # the model did not follow this call to its end, so the position of the RandomState is unknown from here on
+            return dict(res0, nontrivial=False, desc=res0["desc"] + ["stopped:rng_position_unknown"])
+    return dict(res0, nontrivial=bool(nt) and len(case["steps"]) > 1)
 
 
 # ------------------------------------------------------------------ EnsemblePredictor: member order under every latency order
+_MEMBERS = {}
+
+
+def member_classes():
+    """Module-level classes (picklable by reference for the process backend): a member that sleeps `delay`, then returns
+    [its tag, the time it finished]; a loader of such a member; an aggregator that records what predict() hands it."""
+    if not _MEMBERS:
+        from deephyper.ensemble.aggregator import Aggregator
+        from deephyper.predictor import Predictor, PredictorLoader
+
+        class TaggedMember(Predictor):
+            def __init__(self, tag):
+                self.tag, self.delay = tag, 0.0
+
+            def predict(self, X):
+                time.sleep(self.delay)
+                return np.array([float(self.tag), time.monotonic()])  # member-distinguishing prediction
+
+        class TaggedLoader(PredictorLoader):
+            def __init__(self, tag):
+                self.tag, self.delay = tag, 0.0
+
+            def load(self):
+                mb = TaggedMember(self.tag)
+                mb.delay = self.delay
+                return mb
+
+        class SpyAggregator(Aggregator):
+            def __init__(self):
+                self.seen = None
+
+            def aggregate(self, y, weights=None):
+                self.seen = ([np.asarray(a, dtype=float).copy() for a in y], None if weights is None else list(weights))
+                return np.zeros(1)
+
+        for c in (TaggedMember, TaggedLoader, SpyAggregator):
+            c.__module__, c.__qualname__ = __name__, c.__name__
+            globals()[c.__name__] = c
+        _MEMBERS.update(member=TaggedMember, loader=TaggedLoader, spy=SpyAggregator)
+    return _MEMBERS
+
+
 def check_predictor(case):
-    """One EnsemblePredictor, one or SEVERAL predictions_from_predictors calls on it (case["calls"]: one list of ranks per
-    call; ranks[i] = position of member i in the intended completion order of that call).
+    """One EnsemblePredictor, one or SEVERAL calls on it (case["calls"]: one list of ranks per call; ranks[i] = position
+    of member i in the intended completion order of that call), through predictions_from_predictors or through predict()
+    (then observed by a recording aggregator, together with the weights), on the thread backend with n workers, the
+    default evaluator (evaluator=None) and the process backend, with members given as Predictors or as
+    PredictorLoaders, and with the caller re-ordering `ensemble.predictors` / `weights` between calls.
 
     The ensemble's evaluator keeps numbering its jobs across calls ("0.<number>"): call c of an n-member ensemble
     submits the job numbers c*n .. c*n+n-1.  The model's order_by_id takes the ids as INTEGERS (Z, compared with
-    Z.leb - Model.order_by_id; C20_order_by_id needs strictly increasing integer ids), so the harness hands it
-    (job number, member) pairs in completion order; sequences of calls and ensembles of 11-13 members make the job
-    numbers of one call straddle 9->10 and 99->100, where the order of the id STRINGS differs from the integer order
-    (C20_string_ids_refuted)."""
+    Z.leb - Model.order_by_id; C20_order_by_id / C20_order_by_id_calls need strictly increasing integer ids), so the
+    harness hands it (job number, member) pairs in completion order; sequences of calls and ensembles of 11-13 members
+    make the job numbers of one call straddle 9->10 and 99->100, where the order of the id STRINGS differs from the
+    integer order (C20_string_ids_refuted)."""
     from deephyper.ensemble import EnsemblePredictor
     from deephyper.ensemble.aggregator import MeanAggregator
-    from deephyper.predictor import Predictor
 
+    K = member_classes()
     calls = case["calls"] if "calls" in case else [case["ranks"]]
     n = len(calls[0])
-    state = dict(ranks=calls[0], done=[])
-    lock = threading.Lock()
-
-    class P(Predictor):
-        def __init__(self, i):
-            self.i = i
-
-        def predict(self, X):
-            time.sleep(case["unit"] * state["ranks"][self.i])
-            with lock:
-                state["done"].append(self.i)
-            return np.array([self.i])  # member-distinguishing prediction
-
-    members = [P(i) for i in range(n)]
+    backend = case.get("evaluator", "thread_n")
     last = len(calls) * n - 1
     res = dict(ok=True, kind="oracle", clause="", sig={}, nontrivial=False,
                desc=["members=%s" % (n if n <= 5 else "6-10" if n <= 10 else "11+"), "calls=%s" % (len(calls) if len(calls) < 3 else "3+"),
-                     "last_job_number=%s" % ("<10" if last < 10 else "10-99" if last < 100 else "100+")])
+                     "last_job_number=%s" % ("<10" if last < 10 else "10-99" if last < 100 else "100+"), "backend=%s" % backend]
+                    + (["members_as_loaders"] if case.get("loader") else []))
     m = model()
-    st, ens = with_watchdog(lambda: EnsemblePredictor(predictors=members, aggregator=MeanAggregator(),
-                                                       evaluator={"method": "thread", "method_kwargs": {"num_workers": n}}), seconds=20, wall=True)
-    if st != "ok":
-        if st == "exc":
-            raise ens
-        return dict(res, ok=False, clause="predictor_total", sig={"error": "nontermination"}, detail="constructor: no answer within 20s")
+    weights = [float(i + 1) for i in range(n)]
+    obs = observe_predictor_child(case) if backend == "process" else observe_predictor(case)
     permuted = 0
-    for c, ranks in enumerate(calls):
-        state["ranks"], state["done"] = ranks, []
-        st, out = with_watchdog(lambda: ens.predictions_from_predictors(np.zeros((1, 1)), members), seconds=20, wall=True)
-        if st == "timeout":
-            return dict(res, ok=False, clause="predictor_total", sig={"error": "nontermination"}, detail="call %d: no answer within 20s" % c)
-        if st == "exc":
-            raise out
-        got = [int(np.asarray(a).reshape(-1)[0]) for a in out]
-        completion = list(state["done"])
+    for c, o in enumerate(obs["calls"]):
+        current = o["current"]
+        if o.get("note"):
+            return dict(res, ok=False, clause="member_order", detail=dict(call=c, note=o["note"]))
+        if "wseen" in o and (o["wseen"] is None or [float(x) for x in o["wseen"]] != [weights[t] for t in current]):
+            return dict(res, ok=False, clause="predict_weights", detail=dict(call=c, weights=o["wseen"], expected=[weights[t] for t in current]))
+        got = [current.index(t) if t in current else n for t in o["tags"]]  # positions in ens.predictors
+        completion = [g for _, g in sorted(zip(o["fin"], got))]  # positions in the order in which the members finished
         permuted += completion != sorted(completion)
         base = c * n
         if len(got) != n or not m.call(F_OKMEMBERS, [n, got]):
@@ -591,9 +787,94 @@ def check_predictor(case):
         mod = m.call(F_BYID, [[base + i, i] for i in completion])
         if [p[1] for p in mod] != got:
             return dict(res, ok=False, kind="corr", clause="order_by_id", detail=dict(call=c, model=mod, impl=got, completion=completion))
+    if obs["status"] == "timeout":
+        return dict(res, ok=False, clause="predictor_total", sig={"error": "nontermination"}, detail=obs["detail"])
+    if obs["status"] != "ok":
+        raise RuntimeError(obs["detail"])
     res["nontrivial"] = permuted > 0 or last >= 10
     res["desc"].append("completion_order=%s" % ("permuted" if permuted else "as_submitted"))
     return res
+
+
+def observe_predictor(case):
+    """Runs the implementation part of a predictor case -> dict(status='ok'|'timeout'|'exc', detail, calls=[per call:
+    dict(current=tags in the order of ens.predictors, tags=returned, fin=finishing times[, wseen][, note])])."""
+    from deephyper.ensemble import EnsemblePredictor
+    from deephyper.ensemble.aggregator import MeanAggregator
+
+    K = member_classes()
+    calls = case["calls"] if "calls" in case else [case["ranks"]]
+    n = len(calls[0])
+    backend = case.get("evaluator", "thread_n")
+    members = [(K["loader"] if case.get("loader") else K["member"])(i) for i in range(n)]
+    ev = {"thread_n": {"method": "thread", "method_kwargs": {"num_workers": n}},
+          "thread_default": None,  # (evaluator="serial" cannot be constructed: SerialEvaluator wants a coroutine run-function)
+          "process": {"method": "process", "method_kwargs": {"num_workers": min(n, 4)}}}[backend]
+    spy = K["spy"]()
+    weights = [float(i + 1) for i in range(n)]  # non-uniform: a re-ordering would pair members with other weights
+    limit = 60 if backend == "process" else 20
+    out_calls = []
+    st, ens = with_watchdog(lambda: EnsemblePredictor(predictors=list(members), aggregator=spy if case.get("via_predict") else MeanAggregator(),
+                                                       weights=list(weights), evaluator=ev), seconds=limit, wall=True)
+    if st != "ok":
+        return dict(status=st, detail="constructor: %r" % (ens,), calls=out_calls)
+    current = list(range(n))  # tags in the order of ens.predictors
+    for c, ranks in enumerate(calls):
+        perm = (case.get("reorder") or {}).get(str(c))
+        if perm:  # the caller re-orders its ensemble between two calls (members loaded in another order)
+            current = [current[i] for i in perm]
+            ens.predictors = [members[t] for t in current]
+            ens.weights = [weights[t] for t in current]
+        for t, mb in enumerate(members):
+            mb.delay = case["unit"] * ranks[t]
+        X = np.zeros((1, 1))
+        o = dict(current=list(current))
+        if case.get("via_predict"):
+            spy.seen = None
+            st, out = with_watchdog(lambda: ens.predict(X), seconds=limit, wall=True)
+            if st == "ok":
+                if spy.seen is None:
+                    out_calls.append(dict(o, note="predict() never aggregated"))
+                    break
+                out, o["wseen"] = spy.seen
+        else:
+            st, out = with_watchdog(lambda: ens.predictions_from_predictors(X, ens.predictors), seconds=limit, wall=True)
+        if st != "ok":
+            return dict(status=st, detail="call %d: %s" % (c, "no answer within %ds" % limit if st == "timeout" else repr(out)), calls=out_calls)
+        o["tags"] = [int(np.asarray(a).reshape(-1)[0]) for a in out]
+        o["fin"] = [float(np.asarray(a).reshape(-1)[1]) for a in out]
+        out_calls.append(o)
+    return dict(status="ok", detail="", calls=out_calls)
+
+
+def observe_predictor_child(case):
+    """The process backend leaves worker / resource-tracker processes behind that keep the caller's stdout open: such a
+    case runs in its own interpreter and its own session, and the whole process group is killed afterwards."""
+    import json
+    import os
+    import subprocess
+    import sys
+
+    code = "import sys, json; from vp.props import c20; print('OBS=' + json.dumps(c20.observe_predictor(json.loads(sys.argv[1]))))"
+    p = subprocess.Popen([sys.executable, "-c", code, json.dumps(case)], stdin=subprocess.DEVNULL, stdout=subprocess.PIPE, stderr=subprocess.DEVNULL,
+                         text=True, start_new_session=True, env=dict(os.environ))
+    lines = []
+    try:
+        for line in p.stdout:  # stop reading at the answer: the pipe stays open as long as a straggler lives
+            lines.append(line)
+            if line.startswith("OBS="):
+                break
+    finally:
+        try:
+            os.killpg(p.pid, signal.SIGKILL)
+        except ProcessLookupError:
+            pass
+        p.stdout.close()
+        p.wait()
+    for line in lines:
+        if line.startswith("OBS="):
+            return json.loads(line[4:])
+    return dict(status="exc", detail="child interpreter gave no answer: %r" % "".join(lines)[-500:], calls=[])
 
 
 # ------------------------------------------------------------------ search-on-break
@@ -677,7 +958,7 @@ def gen_masks(rng, n, msamp):
 
 def gen_opts(rng, n, kind, i):
     k_init = rng.choice([1, 1, 1, 2, 2, 3, 5, 15])
-    k = k_init + rng.choice([1, 2, 3, 5, 10]) if rng.random() < 0.8 else rng.choice([1, 2, 3, 5])
+    k = k_init + rng.choice([1, 2, 3, 5, 10]) if rng.random() < 0.8 else rng.choice([0, 1, 2, 3, 5])
     es, repl, bag = bool(i & 1), bool(i & 2), bool(i & 4)
     max_it = rng.choice([-1] * 12 + [0, 1, 1, 3, 3, 10, 10])
     if not es and repl and max_it < 0 and rng.random() < 0.6:
@@ -693,22 +974,35 @@ KINDS = ["se", "se", "ae", "cce", "zo", "table", "table"]
 STYLES = ["float", "opposed", "opposed", "grid", "dups", "far"]
 
 
-def gen_case(rng, i, small=False):
-    kind = KINDS[i % len(KINDS)]
+def gen_case(rng, i, small=False, kind=None):
+    kind = kind or KINDS[i % len(KINDS)]
     n = rng.choice([1, 2, 2, 3, 3, 4, 4, 5, 6, 8, 10, 12]) if not small else rng.randint(1, 4)
     msamp = rng.randint(1, 5)
     if kind == "table":
-        mode = rng.choice(["hash2", "hash4", "hash16", "hash64", "shash8", "shash64", "nhash4", "nhash16", "weight_of:%d" % rng.randrange(n)])
+        mode = rng.choice(["hash2", "hash4", "hash16", "hash64", "shash8", "shash64", "nhash4", "nhash16", "ulp2", "ulp3", "huge4", "tiny4",
+                           "weight_of:%d" % rng.randrange(n)])
         case = dict(kind=kind, preds=[0] * n, table=mode, salt=str(rng.randint(0, 10 ** 6)))
         if mode.startswith("weight_of"):
             case["_frac_loss"] = True  # not integer valued: eps_tol = 0 would allow an endless strictly decreasing run
     else:
-        y, preds = gen_values(rng, kind, n, msamp, rng.choice(STYLES))
+        style = rng.choice(STYLES)
+        y, preds = gen_values(rng, kind, n, msamp, style)
         case = dict(kind=kind, y=y, preds=preds)
+        if kind in ("se", "ae") and style in ("grid", "far") and rng.random() < 0.4:
+            # integer-typed targets and predictions (numpy int64 arrays), as in tests/ensemble
+            f = 4 if style == "grid" else 1
+            case.update(y=[int(v * f) for v in y], preds=[[int(v * f) for v in p] for p in preds], int_dtype=True)
         if rng.random() < 0.3:
             case["masks"] = gen_masks(rng, n, msamp)
             if rng.random() < 0.25:  # complete members handed over as plain ndarrays instead of all-False masks
                 case["plain"] = [not any(mk) and rng.random() < 0.6 for mk in case["masks"]]
+            if kind in ("se", "ae") and not case.get("int_dtype") and rng.random() < 0.35:
+                case["junk"] = rng.choice(["nan", "inf", "big"])  # what lies under a mask
+        r = rng.random()
+        if r < 0.12:
+            case["container"] = "tuple"
+        elif r < 0.22 and "masks" not in case:
+            case["container"] = "array"
     return case, n
 
 
@@ -728,10 +1022,42 @@ def gen_topk(count):
     def gen(rng, tier):
         for i in range(count):
             case, n = gen_case(rng, i, small=(tier == "search"))
-            case["k"] = rng.choice([1, 2, 3, 5, 12, 20])
+            case["k"] = rng.choice([0, 1, 1, 2, 3, 5, 12, 20])
             case.pop("_frac_loss", None)
             yield case
     return gen
+
+
+def gen_reuse(count):
+    def gen(rng, tier):
+        for i in range(count if tier != "search" else min(count, 40)):
+            kind = KINDS[i % len(KINDS)]
+            steps, opts = [], None
+            shared = None
+            for _ in range(rng.randint(2, 4)):
+                c, n = gen_case(rng, i, small=(tier == "search"), kind=kind)
+                frac_loss = c.pop("_frac_loss", False)
+                if kind == "table":
+                    shared = shared or dict(table=c["table"] if not frac_loss else "hash4", salt=c["salt"])
+                    c.update(shared)  # one loss function for the life of the selector
+                c.pop("kind")
+                steps.append(c)
+            opts = gen_opts(rng, 3, kind, rng.randrange(8) | (4 if i % 3 == 0 else 0))  # bagging in a third: the draws go on across calls
+            if opts["max_it"] == 0:
+                opts["max_it"] = 3
+            yield dict(kind=kind, steps=steps, opts=opts, k=rng.choice([0, 1, 2, 3, 5]), pickle=rng.random() < 0.3)
+    return gen
+
+
+def shrink_reuse(case):
+    st = case["steps"]
+    if len(st) > 1:
+        yield dict(case, steps=st[:-1])
+        yield dict(case, steps=st[1:])
+    if case.get("pickle"):
+        yield dict(case, pickle=False)
+    if case["opts"]["bag"]:
+        yield dict(case, opts=dict(case["opts"], bag=False))
 
 
 def gen_online(count):
@@ -743,11 +1069,15 @@ def gen_online(count):
             for _ in range(rng.randint(1, 7)):
                 # a mixture of jobs that predict every validation sample and jobs that predict a part of them
                 idx = list(range(msamp)) if rng.random() < 0.4 else sorted(rng.sample(range(msamp), rng.randint(1, msamp)))
-                jobs.append(dict(fail=rng.random() < 0.15, idx=idx, pred=[rng.randint(-8, 8) / 4 for _ in idx]))
+                jobs.append(dict(fail=rng.random() < (0.15 if i % 25 else 1.0), idx=idx, pred=[rng.randint(-8, 8) / 4 for _ in idx],
+                                 obj=rng.choice([0.0, 0.0, -1.5, 2, True]), other=rng.random() < 0.2))
             o = gen_opts(rng, 3, "se", rng.randrange(8))
             if o["max_it"] == 0:
                 o["max_it"] = -1
-            yield dict(y=y, jobs=jobs, selector="greedy" if i % 4 else "topk", opts=o)
+            case = dict(y=y, jobs=jobs, selector="greedy" if i % 4 else "topk", opts=o)
+            if i % 5 == 0:  # integer-typed targets
+                case.update(y=[int(v * 4) for v in y], int_y=True)
+            yield case
     return gen
 
 
@@ -772,6 +1102,16 @@ def gen_predictor(maxn):
             seqs = [(3, 5), (6, 3)]
         for n, c in seqs:
             yield dict(calls=[perm(n) for _ in range(c)], unit=0.004 if n * c > 40 else 0.01)
+        # other entry points: predict() (observed by a recording aggregator), members given as loaders, the caller re-ordering
+        # ensemble.predictors between calls, the default / serial / process evaluators
+        for k, (n, c) in enumerate([(3, 5), (4, 4), (6, 3), (12, 2), (5, 3), (3, 12)] + ([(4, 6), (7, 4), (13, 2), (3, 36)] if th else [])):
+            case = dict(calls=[perm(n) for _ in range(c)], unit=0.004, via_predict=(k % 2 == 0), loader=(k % 3 == 0))
+            case["reorder"] = {str(cc): perm(n) for cc in range(1, c) if rng.random() < 0.6}
+            yield case
+        for backend, n, c in [("thread_default", 4, 3), ("thread_default", 3, 5), ("process", 4, 3), ("process", 12, 1)] + ([("process", 3, 5), ("thread_default", 12, 2)] if th else []):
+            if tier == "search" and backend == "process":
+                continue
+            yield dict(calls=[perm(n) for _ in range(c)], unit=0.05 if backend == "process" else 0.004, evaluator=backend, via_predict=(n == 4 and backend != "process"))
         # larger ensembles, a few sampled latency orders, one or two calls
         for n in (11, 12, 13):
             orders = [list(range(n)), list(range(n))[::-1]] + [perm(n) for _ in range(4 if th else 1)]
@@ -850,6 +1190,7 @@ def streams(tier):
     return [
         Stream("topk", mark_search(gen_topk(5000 if th else 300)), searching("topk", check_topk), shrink_sel, timeout=240),
         Stream("greedy", mark_search(gen_greedy(8000 if th else 400)), searching("greedy", check_greedy), shrink_sel, timeout=240),
+        Stream("reuse", mark_search(gen_reuse(600 if th else 90)), searching("reuse", check_reuse), shrink_reuse, timeout=240),
         Stream("online", mark_search(gen_online(1500 if th else 160)), searching("online", check_online), shrink_online, timeout=240),
         Stream("predictor_order", gen_predictor(5 if th else 4), check_predictor, shrink_predictor, timeout=240),
     ]
